@@ -5,6 +5,7 @@ mod fy;
 mod invhash;
 mod mle;
 mod pmh;
+mod sk;
 mod tracker;
 mod util;
 
@@ -21,6 +22,8 @@ fn main() {
         "invhash-replay" => invhash::replay(rest),
         "est-cases" => est::cases(rest),
         "pmh-cases" => pmh::cases(rest),
+        "sk-cases" => sk::cases(rest),
+        "sk-props" => sk::props(rest),
         "pmh-props" => pmh::props(rest),
         "pmh-props-replay" => pmh::props_replay(rest),
         "mle-cases" => mle::cases(rest),
